@@ -94,6 +94,36 @@ def run(out: common.Outcome, explore: int = 0) -> None:
         out.violation({"kind": "pv_event_to_otel does not give the span the converter's value for the event's timestamp", **b})
     out.coverage["pv_event_to_otel_cases"] = n_ev
 
+    # the OTel -> PV step as the tool performs it (sequence_otel_event_job): every PV event carries the rendering of its own
+    # span's end time, whatever its position in the job and whatever the neighbouring values (0 included)
+    from tel2puml.otel_to_pv.sequence_otel import sequence_otel_event_job
+    from tel2puml.otel_to_pv.otel_to_pv_types import OTelEvent
+    sq_bad, n_sq = [], 0
+    pool_ns = [1000 * u for u in inst[:n_boundary]] + [n for n, _ in u_cases[:200]]
+    r3 = random.Random(out.seed * 104729 + 161)
+    for k in range(400 if out.tier == "quick" else 4000):
+        ends = [r3.choice(pool_ns) for _ in range(r3.choice([1, 2, 3, 4]))]
+        if k % 4 == 0:
+            ends[0] = 0
+        if k % 5 == 0 and len(ends) > 1:
+            ends[1] = ends[0]           # equal neighbouring end times
+        evs = {}
+        for i, en in enumerate(ends):
+            evs[f"e{i}"] = OTelEvent(job_name="n", job_id="j", event_type=f"T{i}", event_id=f"e{i}", start_timestamp=max(0, en - 5),
+                                     end_timestamp=en, application_name="a", parent_event_id=None if i == 0 else "e0",
+                                     child_event_ids=[f"e{j}" for j in range(1, len(ends))] if i == 0 else [])
+        try:
+            got = {p["eventId"]: p["timestamp"] for p in sequence_otel_event_job(evs)}
+        except Exception as e:  # noqa
+            got = {"ERR": type(e).__name__}
+        n_sq += 1
+        want = {f"e{i}": impl_f(en) for i, en in enumerate(ends)}
+        if got != want:
+            sq_bad.append(dict(end_times_in_stream_order=ends, pv_timestamps=got, converter=want))
+    for b in sq_bad[:2]:
+        out.violation({"kind": "sequence_otel_event_job does not give a PV event the rendering of its span's end time", **b})
+    out.coverage["sequencer_timestamp_cases"] = n_sq
+
     # the same converters in a process whose local time zone is not UTC (results must not depend on TZ)
     import subprocess, json as _json
     tz_inst = inst[:n_boundary:7] + inst[n_boundary:n_boundary + 300]
@@ -238,6 +268,10 @@ def replay(out: common.Outcome, rp: dict) -> None:
     if "unix_nano" in rp:
         got = unix_nano_to_pv_string(rp["unix_nano"])
         print("unix_nano_to_pv_string(%d) = %s" % (rp["unix_nano"], got))
+    if "end_times_in_stream_order" in rp:
+        print("sequencer leg:", rp["end_times_in_stream_order"], rp["pv_timestamps"], "expected", rp["converter"])
+        out.coverage.update({"evaluations": 1, "distinct_nontrivial": 0, "rule": "replay", "samples": [rp]})
+        return
     if "span_start_end" in rp:
         from tel2puml.pv_to_tel import pv_event_to_otel
         try:
